@@ -14,7 +14,7 @@ def replications(H):
     cur = None
     pending_inv = {}
     for pos, h in enumerate(H):
-        if h[0] == "cmd" and h[2] in ("initialize", "cleanup"):
+        if h[0] == "cmd" and h[2] in ("initialize", "initialize_b", "cleanup"):
             if h[3] == "invoke":
                 pending_inv[h[1]] = pos
             else:
@@ -24,7 +24,7 @@ def replications(H):
                         cur["end"] = pending_inv.get(h[1], pos)
                         out.append(cur)
                         cur = None
-                    if h[2] == "initialize":
+                    if h[2] in ("initialize", "initialize_b"):
                         cur = {"start": pos, "end": None, "init_index": h[1],
                                "clock0": h[6][2]}
     if cur is not None:
